@@ -2,6 +2,7 @@ package main
 
 import (
 	"errors"
+	"fmt"
 	"net/netip"
 	"strings"
 
@@ -108,6 +109,47 @@ func execRec(args []string) string {
 	return out
 }
 
+// recbig: args = number of names, length of each.  The line "1.2.3.4 n0 n1 ..." is built here (its
+// names part can exceed 64 KiB, which the extracted model needs minutes for) and the record is compared
+// with the names it was built from: a direct check of "the names are the fields after the address".
+func execRecBig(args []string) string {
+	count, l := Atoi(args[0]), Atoi(args[1])
+	names := make([]string, count)
+	for i := range names {
+		tail := "n" + I(i)
+		var labs []string
+		for used := len(tail); used+2 <= l; {
+			lab := min(60, l-used-1)
+			labs = append(labs, strings.Repeat(string(rune('a'+i%26)), lab))
+			used += lab + 1
+		}
+		names[i] = strings.Join(append(labs, tail), ".")
+	}
+	line := []byte("1.2.3.4 " + strings.Join(names, " "))
+	rec := &hostsfile.Record{}
+	var err error
+	func() {
+		defer func() {
+			if v := recover(); v != nil {
+				err = fmt.Errorf("PANIC: %v", v)
+			}
+		}()
+		err = rec.UnmarshalText(line)
+	}()
+	if err != nil {
+		return "spec=bad:rejected:" + classifyRecErr(err) + ":" + strings.SplitN(err.Error(), ":", 2)[0]
+	}
+	if len(rec.Names) != count {
+		return "spec=bad:" + I(len(rec.Names)) + "-names-for-" + I(count)
+	}
+	for i := range names {
+		if rec.Names[i] != names[i] {
+			return "spec=bad:name-" + I(i) + "-differs"
+		}
+	}
+	return "ok"
+}
+
 // rec2: args as rec.  The Record has been used before (it holds the address and three names of an earlier
 // line) when the line is given to it.  For an accepted line, and for one rejected at a name, it holds
 // exactly what a fresh Record would hold; what it holds after the other rejections is not specified
@@ -198,6 +240,30 @@ func genC07(g *G) {
 	for _, s := range []string{"", " ", "\t", "#", " # x", "1.2.3.4", "localhost", "\r", "\xff\xfe", "1.2.3.4 a b c", "1.2.3.4   tail", "1.2.3.4\ta\tb", "1.2.3.4 a#b c"} {
 		emit(s)
 	}
+	// lines whose names part is around and beyond 64 KiB (checked directly, see recbig)
+	for _, c := range [][2]int{{340, 190}, {345, 190}, {350, 200}, {700, 100}, {16384, 3}, {16385, 3}, {22000, 3}, {1100, 61}} {
+		g.Emit("recbig", I(c[0]), I(c[1]))
+	}
+	// many valid names, then an invalid one, then more fields (the names kept are those before the bad one)
+	for _, n := range []int{15, 16, 17, 18, 20, 33, 64, 100} {
+		var fs []string
+		for i := 0; i < n; i++ {
+			fs = append(fs, "h"+I(i)+".example")
+		}
+		good := strings.Join(fs, " ")
+		emit("1.2.3.4 " + good + " -bad- after.example more.example")
+		emit("1.2.3.4 " + good + " a..b")
+		emit("::1 " + good)
+	}
+	// a names part longer than 64 KiB (thorough tier only: the extracted model needs minutes for such a line)
+	if !g.Quick() {
+		var fs []string
+		for i := 0; i < 340; i++ {
+			fs = append(fs, strings.Repeat(string(rune('a'+i%26)), 60)+"."+strings.Repeat("b", 60)+"."+strings.Repeat("c", 60)+".n"+I(i))
+		}
+		emit("1.2.3.4 " + strings.Join(fs, " "))
+		emit("1.2.3.4 " + strings.Join(fs[:330], " ") + " " + strings.Repeat("x", 61) + "." + strings.Repeat("y", 61) + "." + strings.Repeat("z", 61) + ".tail " + strings.Join(fs[330:], " "))
+	}
 	// adjacent names that are equal under case folding while only one of them is valid
 	k63 := strings.Repeat("k", 63)
 	for _, pair := range [][2]string{{"XN--0.example", "xn--0.example"}, {"xn--0.example", "XN--0.example"}, {k63 + ".example", k63[:62] + "\u212a.example"},
@@ -224,12 +290,15 @@ func genC07(g *G) {
 func init() {
 	properties["C07"] = &Property{
 		Gen:  genC07,
-		Exec: map[string]Executor{"rec": execRec, "rec2": execRec2},
+		Exec: map[string]Executor{"rec": execRec, "rec2": execRec2, "recbig": execRecBig},
 		Nontrivial: func(fn string, args []string, obs string) bool {
 			return !strings.Contains(obs, "err=empty") && !strings.Contains(obs, "err=nohosts") // at least two fields
 		},
 		Class: func(fn string, args []string, obs string) string {
 			i := strings.Index(obs, "err=")
+			if i < 0 {
+				return fn
+			}
 			return strings.Fields(obs[i:])[0]
 		},
 		Rule: "all lines of <=3 (quick; 3-field lines sampled) / <=4 (thorough) fields over a 14-field alphabet (IPv4, IPv6, zone, invalid address, valid/invalid names, IDN, invalid UTF-8, names containing CR, NBSP, '#') x 3 separators, with leading/trailing blanks and comments; random structured lines (17 address forms x 23 name forms x 4 separators, '#' and odd whitespace inserted at random positions). Observed: record address and names, error class (empty / nohosts / address error / *AddrError for a name), input slice unmodified, and for accepted records MarshalText and its re-parse. netip.ParseAddr and ValidateDomainName answers are recorded per field as the oracle. distinct=line; non-trivial = the line has at least two fields",
